@@ -136,7 +136,7 @@ def rule_2(ctx):
     if ok:
         ext = out.value
         ctx.expect({S + 'A1', S + 'A2'} <= set(ext.get('cells')), fn, 'member cells of a referenced range are extracted',
-                   f'the member cells of the referenced range are missing from the extracted model: {sorted(ext.get('cells'))}')
+                   f'the member cells of the referenced range are missing from the extracted model: {sorted(ext.get("cells"))}')
         ctx.expect(bool(ext.get('ranges')) or ext.get('built') > 0, fn, 'ranges of the extracted model are populated',
                    'extract() never fills the ranges registry of the extracted model')
     else:
@@ -175,7 +175,7 @@ def rule_3(ctx):
                'extract() adds, removes or replaces entries of the original model')
     ctx.expect({'nm', 'rng'} <= set(ext.get('defined_names')) and {S + 'N1', S + 'A1', S + 'B1', S + 'C1', S + 'D1'} <= set(ext.get('cells')), fn,
                'focused names and their cells are extracted',
-               f'focused defined names / their cells are missing: names {sorted(ext.get('defined_names'))}, cells {sorted(ext.get('cells'))}')
+               f'focused defined names / their cells are missing: names {sorted(ext.get("defined_names"))}, cells {sorted(ext.get("cells"))}')
     ctx.floor(5, 'aliasing witnesses')
 
 
